@@ -79,9 +79,17 @@ class Parser(BaseParser):
             # We carry over any unmatched items from the to_scan buffer to be matched again after
             # the ignore. This should allow us to use ignored symbols in non-terminals to implement
             # e.g. mandatory spacing.
+            # Completed start items are not carried over inside the chart: their parents were already advanced
+            # when they completed (and travel with the scan buffer), so completing them again after the ignored
+            # text would record the same derivation twice. They only matter if nothing but ignored text follows,
+            # so they are kept on the side until the end of the input.
+            roots = None
             for x in self.ignore:
                 m = match(x, stream, i)
                 if m:
+                    if roots is None:
+                        roots = carried_roots.pop(i, {})
+                        roots.update((id(item), item) for item in columns[i] if item.is_complete and item.s == start_symbol and item.start == 0)
                     ends = [m.end()]
                     if self.complete_lex:
                         # Like for regular terminals, consider every shorter match of the ignored terminal
@@ -96,7 +104,9 @@ class Parser(BaseParser):
                         delayed_matches[end].extend([(item, i, None) for item in to_scan ])
 
                         # If we're ignoring up to the end of the file, # carry over the start symbol if it already completed.
-                        delayed_matches[end].extend([(item, i, None) for item in columns[i] if item.is_complete and item.s == start_symbol])
+                        if roots:
+                            carried_roots[end].update(roots)
+            carried_roots.pop(i, None)
 
             next_to_scan = self.Set()
             next_set = self.Set()
@@ -138,7 +148,7 @@ class Parser(BaseParser):
 
             del delayed_matches[i+1]    # No longer needed, so unburden memory
 
-            if not next_set and not delayed_matches and not next_to_scan:
+            if not next_set and not delayed_matches and not next_to_scan and not carried_roots:
                 considered_rules = list(sorted(to_scan, key=lambda key: key.rule.origin.name))
                 raise UnexpectedCharacters(stream, i, text_line, text_column, {item.expect.name for item in to_scan},
                                            set(to_scan), state=frozenset(i.s for i in to_scan),
@@ -149,6 +159,7 @@ class Parser(BaseParser):
 
 
         delayed_matches = defaultdict(list)
+        carried_roots = defaultdict(dict)   # end offset -> completed start items (by id) followed by ignored text up to there
         match = self.term_matcher
         terminals = self.lexer_conf.terminals_by_name
 
@@ -178,6 +189,17 @@ class Parser(BaseParser):
             i += 1
 
         self.predict_and_complete(i, to_scan, columns, transitives, node_cache)
+
+        # The start symbol completed earlier and only ignored text followed: it spans the whole input.
+        for item in carried_roots.pop(i, {}).values():
+            new_item = Item(item.rule, item.ptr, item.start)
+            if item.node is not None:
+                # new_item.node and item.node both represent the same symbol, so merge their children
+                label = (new_item.s, new_item.start, i)
+                new_item.node = node_cache[label] if label in node_cache else node_cache.setdefault(label, self.SymbolNode(*label))
+                for child in item.node.children:
+                    new_item.node.add_family(new_item.s, child.rule, new_item.start, child.left, child.right)
+            columns[i].add(new_item)
 
         ## Column is now the final column in the parse.
         assert i == len(columns)-1
